@@ -380,7 +380,7 @@ type gen struct {
 	exotic bool
 }
 
-func (g *gen) p(x float64) bool      { return g.r.Float64() < x }
+func (g *gen) p(x float64) bool       { return g.r.Float64() < x }
 func (g *gen) pick(l []string) string { return l[g.r.Intn(len(l))] }
 
 // subset returns 1..max distinct elements of l, order randomized.
